@@ -6,6 +6,8 @@ use serde_json::Value as Json;
 pub mod c01;
 pub mod c02;
 pub mod c03;
+#[cfg(feature = "ff")]
+pub mod c04;
 pub mod c05;
 pub mod c06;
 pub mod c07;
@@ -13,8 +15,12 @@ pub mod c10;
 pub mod c11;
 pub mod c12;
 pub mod c13;
+#[cfg(feature = "ff")]
+pub mod c14;
 pub mod c15;
 pub mod c17;
+#[cfg(feature = "ff")]
+pub mod c18;
 pub mod c19;
 pub mod c20;
 
@@ -30,6 +36,19 @@ pub struct Prop {
 }
 
 pub fn all() -> Vec<Prop> {
+    #[allow(unused_mut)]
+    let mut v = base();
+    #[cfg(feature = "ff")]
+    {
+        v.push(c04::PROP);
+        v.push(c14::PROP);
+        v.push(c18::PROP);
+    }
+    v.sort_by_key(|p| p.id);
+    v
+}
+
+fn base() -> Vec<Prop> {
     vec![c01::PROP, c02::PROP, c03::PROP, c05::PROP, c06::PROP, c07::PROP, c10::PROP, c11::PROP, c12::PROP, c13::PROP, c15::PROP, c17::PROP, c19::PROP, c20::PROP]
 }
 
